@@ -43,8 +43,8 @@ def run(R):
     liveness_rules(R)
     retain_rules(R)
     F = R.F
-    R.who_may_write("C08.own.ongoing", RF, "on_going_fetches", WRITERS, floor=7, descr="on_going_fetches is touched only by the fetcher's own scheduling/completion functions")
-    R.who_may_write("C08.own.queue", RF, "to_be_fetched", WRITERS, floor=8, descr="to_be_fetched is touched only by the fetcher's own functions")
+    R.who_may_write("C08.own.ongoing", RF, "on_going_fetches", WRITERS, floor=3, descr="on_going_fetches is touched only by the fetcher's own scheduling/completion functions")
+    R.who_may_write("C08.own.queue", RF, "to_be_fetched", WRITERS, floor=4, descr="to_be_fetched is touched only by the fetcher's own functions")
     R.who_may_construct("C08.own.literal", RF, None, [RF + "::new"], floor=1)
 
     # (1) no duplicate in-flight: every insertion site (in the function or any closure of it) is either a VacantEntry of
